@@ -1,4 +1,5 @@
 """C07 jobs: (1) exit status honest about printed errors, (2) character-indexed tables."""
+import os
 
 ASSUMPTIONS = [
     "what the OS sees of main's return value r is r & 0xff (exit(3))",
@@ -83,14 +84,15 @@ def jobs(tier):
                             "gc0InitSpecialChars.0:260,gc0InitSpecialChars.1:40" + (",h_gc0ValidIdInBuf.0:%d" % (strmax + 2) if "-DH_BYTES_BELOW_127" in defs else ""),
                             "--unwinding-assertions"],
                    "native": True, "timeout": timeout, "assumed": ["fixed-capacity Buffer model in genc_h.c (bufNew/bufAdd1/bufPuts/bufBack1/bufPosition/bufChars)"]})
-    # since the fix of the mangler's tables this is a full (UNSAT) proof too: 4 bytes in quick, 8/16 in thorough
+    # since the fix of the mangler's tables this is a full (UNSAT) proof too: 4 bytes in quick, 8 in thorough
     G("genc.gc0ValidIdInBuf.any_bytes", strmax=4)
     # the passing class is a full (UNSAT) proof and grows quickly with the length: 4 bytes in quick, 8/16 in thorough
     G("sanity.genc.gc0ValidIdInBuf.bytes_below_127", defs=["-DH_BYTES_BELOW_127"], strmax=4)
     G("canary.genc.gc0ValidIdInBuf", defs=["-DH_BYTES_BELOW_127", "-DCANARY_gc0ValidIdInBuf"], kind="canary", strmax=4)
     if tier == "thorough":
         G("genc.gc0ValidIdInBuf.any_bytes.8", strmax=8, timeout=3000)
-        G("genc.gc0ValidIdInBuf.any_bytes.16", strmax=16, timeout=3000)
+        if os.environ.get("VERIF_PROBE_UNDECIDED") == "1":      # 16 bytes: no result in 3000 s (SAT, cadical)
+            G("genc.gc0ValidIdInBuf.any_bytes.16", strmax=16, timeout=3000)
         G("sanity.genc.gc0ValidIdInBuf.bytes_below_127.8", defs=["-DH_BYTES_BELOW_127"], strmax=8, timeout=3000)
         T("token.keyLongest.any_bytes.16", "keyLongest", timeout=3000)
         T("sanity.token.keyLongest.first_byte_7bit.16", "keyLongest", defs=["-DH_FIRST_BYTE_ASCII"], timeout=3000)
